@@ -723,6 +723,17 @@ func (f *fn) call(x *ast.CallExpr, nres int) string {
 			args = append([]ast.Expr{fun.X}, x.Args...)
 		}
 	}
+	if sel, isSel := x.Fun.(*ast.SelectorExpr); isSel { // a callback stored in a field of a struct parameter: n.less(a, b)
+		if i, p, ord, isPath := f.path(sel); isPath && p != "" {
+			if t := f.typeOf(sel); t.k == kFunc {
+				var as []string
+				for _, a := range x.Args {
+					as = append(as, paren(f.expr(a)))
+				}
+				return f.bind(f.pathParam(x, i, p, ord, t) + " " + strings.Join(as, " "))
+			}
+		}
+	}
 	switch c := callee.(type) {
 	case *types.Var: // a callback parameter: fn(x)
 		if t := f.tyOf(c.Type()); t.k == kFunc && f.names[c] != "" {
@@ -1097,6 +1108,30 @@ func (f *fn) assign(s *ast.AssignStmt, rest func() string) string {
 	if len(s.Lhs) == 1 && len(s.Rhs) == 1 {
 		if r, ok := f.structAssign(s, rest); ok {
 			return r
+		}
+		if call, ok := unparen(s.Rhs[0]).(*ast.CallExpr); ok { // x := g(..) where g also writes to its slice parameters
+			if c, args := f.repoCallee(call); c != nil && !has(f.u.Oracles, oracleKey(c)) {
+				if sig := f.u.translate(c); len(sig.Muts) > 0 && sig.NDecl == 1 && sig.StructRes == nil {
+					ts := f.mutTargets(call, c, sig, args)
+					r := f.apply(call, c, sig, args)
+					tmp := f.fresh("r")
+					out := f.takePre() + "let " + tmp + " := " + r + "\n"
+					obj, named := f.lhs(s.Lhs[0])
+					k := rest
+					for i := len(ts) - 1; i >= 0; i-- {
+						proj := tmp + strings.Repeat(".2", 1+i)
+						if i < len(ts)-1 {
+							proj += ".1"
+						}
+						t, inner := ts[i], k
+						k = func() string { return f.rebind(t.name, t.t, proj, inner) }
+					}
+					if !named {
+						return out + k()
+					}
+					return out + f.let(obj, f.tyOf(obj.Type()), tmp+".1", k)
+				}
+			}
 		}
 		if sel, ok := s.Lhs[0].(*ast.SelectorExpr); ok && s.Tok != token.DEFINE { // p.f = e, p.f op= e on a field of a struct parameter
 			if _, pp, _, isPath := f.path(sel); isPath && pp != "" && leaf(f.typeOf(sel)) {
@@ -1477,6 +1512,10 @@ func (u *Unit) Slice(pkgRel, recv, name, leanName string, pats []string, result 
 		}
 		body = f.block(sel, func() string {
 			if resExpr != nil {
+				if id, isID := resExpr.(*ast.Ident); isID && pi.info.Defs[id] != nil { // the result is a variable the statements define
+					resT = []ty{f.tyOf(pi.info.Defs[id].Type())}
+					return f.ret([]string{f.names[pi.info.Defs[id]]})
+				}
 				resT = []ty{f.typeOf(resExpr)}
 				v := f.expr(resExpr)
 				return f.takePre() + f.ret([]string{v})
